@@ -6,6 +6,7 @@ import props_single
 import props_build
 import props_render
 import props_misc
+import props_pickle
 
 CHECKS = {}
 CHECKS.update(props_struct.CHECKS)
@@ -15,3 +16,4 @@ CHECKS.update(props_single.CHECKS)
 CHECKS.update(props_build.CHECKS)
 CHECKS.update(props_render.CHECKS)
 CHECKS.update(props_misc.CHECKS)
+CHECKS.update(props_pickle.CHECKS)
